@@ -38,6 +38,7 @@ MUTANTS["C12"] = [
     ("result-put-after-quota-skipped", "annet/parallel.py", "        done_queue.put((worker_name, task, results, ret_exc))\n\n        tasks_done += 1",
      "        tasks_done += 1\n        if not (pool.max_tasks and tasks_done > pool.max_tasks):\n            done_queue.put((worker_name, task, results, ret_exc))\n        tasks_done -= 1\n\n        tasks_done += 1"),
     ("exc-dropped-single-process", "annet/parallel.py", "                    task_result.exc = safe_exc\n                if self.capture_output:", "                    task_result.exc = None\n                if self.capture_output:"),
+    ("exit-test-uses-stale-poll-flag (revert of ef69d96)", "annet/parallel.py", "                if pool_was_empty and queue_empty:", "                if not pool and queue_empty:"),
 ]
 
 MUTANTS["C01"] = [
